@@ -1301,7 +1301,8 @@ class FlippedInterface:
         """
         if (name in self.__unflipped.signature.members and
                 self.__unflipped.signature.members[name].is_signature):
-            return flipped(getattr(self.__unflipped, name))
+            return _flipped_dimensions(getattr(self.__unflipped, name),
+                                       self.__unflipped.signature.members[name].dimensions)
         else:
             try: # descriptor first
                 return _gettypeattr(self.__unflipped, name).__get__(self, type(self.__unflipped))
@@ -1319,7 +1320,8 @@ class FlippedInterface:
         """
         if (name in self.__unflipped.signature.members and
                 self.__unflipped.signature.members[name].is_signature):
-            setattr(self.__unflipped, name, flipped(value))
+            setattr(self.__unflipped, name, _flipped_dimensions(value,
+                self.__unflipped.signature.members[name].dimensions))
         else:
             try: # descriptor first
                 _gettypeattr(self.__unflipped, name).__set__(self, value)
@@ -1339,6 +1341,13 @@ class FlippedInterface:
 
     def __repr__(self):
         return f"flipped({self.__unflipped!r})"
+
+
+def _flipped_dimensions(value, dimensions):
+    # Flips every interface object in a (nested, if there are several dimensions) list of them.
+    if not dimensions:
+        return flipped(value)
+    return [_flipped_dimensions(item, dimensions[1:]) for item in value]
 
 
 def flipped(interface):
